@@ -363,7 +363,7 @@ func c10Items(tier string, mk func(tier string, tags map[string]int, focus []str
 		}
 	}
 	// (B) uniform tag configurations × ≤2 focus units
-	for cfg := 0; cfg <= 3; cfg++ {
+	for _, cfg := range []int{0, 1, 2, 3, 5, 6} {
 		tv := uniformTags(fields, cfg)
 		for _, fs := range focusSets(units, 2) {
 			if len(fs) < 2 {
@@ -378,7 +378,7 @@ func c10Items(tier string, mk func(tier string, tags map[string]int, focus []str
 func init() {
 	Register(&Prop{
 		ID:    "C10",
-		Rule:  "one execution = one record case: record schema Struct{s,i,l:[]string,n:Struct{s2,b2[,d:Struct{s3,i3}]}} × struct-tag assignment (per field none | zog | source | both | source with [] suffix; ≤2 fields deviating × ≤1 focus unit, and the four uniform assignments × ≤2 focus units) × front end {Go map, zjson, zhttp JSON, form, query, env} (+Validate for Go values) × focus units over Required × tests × input classes × identity and reversed field visit order at every struct visit (both relative orders of any two fields); oracle: issue keys/paths == documented key chain, map invariants, $first == first recorded issue, sanitizers; plus IssuePath overrides at root/field/required/element tests; non-trivial = every expressible case; distinct = distinct (front end, mode, tags, expected issues)",
+		Rule:  "one execution = one record case: record schema Struct{s,i,l:[]string,n:Struct{s2,b2[,d:Struct{s3,i3}]}} × struct-tag assignment (per field none | zog | source | both | source with [] suffix | foreign tags whose key ends in the source tag name | zog tag containing a comma; ≤2 fields deviating × ≤1 focus unit, and the six uniform assignments × ≤2 focus units) × front end {Go map, zjson, zhttp JSON, zhttp JSON of unknown length, form, query, env} (+Validate for Go values) × focus units over Required × tests × input classes × identity and reversed field visit order at every struct visit (both relative orders of any two fields); oracle: issue keys/paths == documented key chain, map invariants, $first == first recorded issue, sanitizers; plus IssuePath overrides at root/field/required/element tests; non-trivial = every expressible case; distinct = distinct (front end, mode, tags, expected issues)",
 		Floor: 50,
 		Bound: func(tier string) string {
 			if tier == "thorough" {
